@@ -151,6 +151,31 @@ type vC11Harness struct {
 	sig     string          // signature override for the stream-discipline clauses (forced schedules)
 }
 
+// orphanSig recognises the known defect "sender orphaned by its cancelled creator" behind a
+// second open stream (signature only; the verdict does not depend on it): some call to the
+// peer ended with a context error without transmitting anything, and overlapped the call that
+// opened (first wrote on) a stream that is still open. hs.mu held.
+func (hs *vC11Harness) orphanSig(p *vC11Peer) string {
+	for _, o := range p.streams {
+		if o.clientReset != 0 {
+			continue
+		}
+		openerStart := o.openSeq
+		if len(o.writes) > 0 {
+			if oc := hs.calls[o.writes[0].id]; oc != nil {
+				openerStart = oc.startSeq
+			}
+		}
+		for _, x := range hs.calls {
+			if x.p == p && x.retSeq != 0 && len(hs.byID[x.id]) == 0 && x.retSeq > openerStart && x.startSeq < o.openSeq &&
+				(errors.Is(x.err, context.Canceled) || errors.Is(x.err, context.DeadlineExceeded)) {
+				return "orphaned-sender"
+			}
+		}
+	}
+	return ""
+}
+
 // check evaluates a stream-discipline clause; in forced schedules the violation carries the
 // schedule's signature so that a known finding can be told apart from a new one.
 func (hs *vC11Harness) check(ok bool, clause, format string, args ...any) bool {
@@ -379,6 +404,10 @@ func (hs *vC11Harness) newStream(ctx context.Context, p peer.ID, protos []protoc
 	}
 	// every stream of an earlier sender generation may still be open; within one generation a
 	// new stream is opened only after the previous one was reset or closed
+	if open > vp.disconnects && hs.sig == "" {
+		hs.sig = hs.orphanSig(vp)
+		defer func() { hs.sig = "" }()
+	}
 	hs.check(open <= vp.disconnects, "one-open-stream", "NewStream(%s) while %d outbound stream(s) to it are still open (%v) and only %d OnDisconnect call(s) were made", vp.name, open, names, vp.disconnects)
 	if open+1 > vp.maxOpen {
 		vp.maxOpen = open + 1
